@@ -660,6 +660,37 @@ func runC17scanner(t *vf.T, c c17case, rnd *vf.Rand) {
 		if s.Scan(ctx, &k) || s.Err() == nil {
 			t.Violate(sig, "Scan with one destination for a two-column scanner did not fail")
 		}
+		// a wrong destination after correct calls is rejected in the same way
+		for _, good := range []int{1, 2, 130} {
+			s3 := sliceio.NewScanner(c17schema.sliceType(1), newChunkedReader(ts, cloneRows(rows), sc))
+			var a int
+			var b string
+			n := 0
+			for n < good && s3.Scan(ctx, &a, &b) {
+				n++
+			}
+			if n < good {
+				continue // fewer rows than that
+			}
+			func() {
+				defer func() {
+					if e := recover(); e != nil {
+						t.Violate(sig+" after-good-calls panic", fmt.Sprintf("Scan with one destination after %d correct calls panicked: %v", good, e))
+					}
+				}()
+				var c int
+				if s3.Scan(ctx, &c) || s3.Err() == nil {
+					t.Violate(sig+" after-good-calls", fmt.Sprintf("Scan with one destination for a two-column scanner, after %d correct calls, did not fail", good))
+				}
+				s4 := sliceio.NewScanner(c17schema.sliceType(1), newChunkedReader(ts, cloneRows(rows), sc))
+				if s4.Scan(ctx, &a, &b) {
+					var x, y int
+					if s4.Scan(ctx, &x, &y) || s4.Err() == nil {
+						t.Violate(sig+" after-good-calls", "Scan with *int for a string column, after a correct call, did not fail")
+					}
+				}
+			}()
+		}
 		t.Nontrivial("")
 		return
 	case "scanner-badtype":
